@@ -2001,15 +2001,18 @@ func (s *SelectStatement) GroupByOffset() (time.Duration, error) {
 // SetTimeRange sets the start and end time of the select statement to [start, end). i.e. start inclusive, end exclusive.
 // This is used commonly for continuous queries so the start and end are in buckets.
 func (s *SelectStatement) SetTimeRange(start, end time.Time) error {
-	cond := fmt.Sprintf("time >= '%s' AND time < '%s'", start.UTC().Format(time.RFC3339Nano), end.UTC().Format(time.RFC3339Nano))
-	if s.Condition != nil {
-		cond = fmt.Sprintf("%s AND %s", s.rewriteWithoutTimeDimensions(), cond)
+	bound := func(op Token, t time.Time) Expr {
+		return &BinaryExpr{Op: op, LHS: &VarRef{Val: "time"}, RHS: &StringLiteral{Val: t.UTC().Format(time.RFC3339Nano)}}
 	}
 
-	expr, err := NewParser(strings.NewReader(cond)).ParseExpr()
-	if err != nil {
-		return err
+	// <condition> AND time >= '<start>' AND time < '<end>', grouped as the parser groups
+	// that text. The condition is used as it is rather than printed and parsed again:
+	// not every expression prints as text that parses back to the same expression.
+	expr := bound(GTE, start)
+	if s.Condition != nil {
+		expr = &BinaryExpr{Op: AND, LHS: s.rewriteWithoutTimeDimensions(), RHS: expr}
 	}
+	expr = &BinaryExpr{Op: AND, LHS: expr, RHS: bound(LT, end)}
 
 	// Fold out any previously replaced time dimensions and set the condition.
 	s.Condition = Reduce(expr, nil)
@@ -2025,8 +2028,8 @@ func isTimeRef(e Expr) bool {
 
 // rewriteWithoutTimeDimensions will remove any WHERE time... clauses from the select statement.
 // This is necessary when setting an explicit time range to override any that previously existed.
-func (s *SelectStatement) rewriteWithoutTimeDimensions() string {
-	n := RewriteFunc(s.Condition, func(n Node) Node {
+func (s *SelectStatement) rewriteWithoutTimeDimensions() Expr {
+	n := RewriteExpr(s.Condition, func(n Expr) Expr {
 		switch n := n.(type) {
 		case *BinaryExpr:
 			// A time bound may be written with time on either side and in any
@@ -2040,12 +2043,13 @@ func (s *SelectStatement) rewriteWithoutTimeDimensions() string {
 		}
 	})
 
-	// The caller appends "AND <time range>" to the text. OR is the only operator
-	// that binds looser than AND, so an OR at the top has to keep its operands together.
+	// The caller makes the result the left operand of an AND. OR is the only operator
+	// that binds looser than AND, so an OR at the top is put in parentheses: the new
+	// condition has to print as text that parses back with the same grouping.
 	if b, ok := n.(*BinaryExpr); ok && b.Op == OR {
-		return "(" + n.String() + ")"
+		return &ParenExpr{Expr: n}
 	}
-	return n.String()
+	return n
 }
 
 func encodeMeasurement(mm *Measurement) *internal.Measurement {
